@@ -32,18 +32,18 @@ Definition names_eqb := list_eqb N.eqb.
 Definition mberr_eqb (a b : mberr) : bool :=
   match a, b with
   | DuplicateParameterNames l, DuplicateParameterNames l' => names_eqb l l'
-  | EmptyParameters _, EmptyParameters _ => true
+  | EmptyParameters, EmptyParameters => true
   | FunctionParameterNotInModel n, FunctionParameterNotInModel n' => N.eqb n n'
   | InvalidDerivative n l, InvalidDerivative n' l' => N.eqb n n' && names_eqb l l'
   | DuplicateDerivative n, DuplicateDerivative n' => N.eqb n n'
   | MissingDerivative n l, MissingDerivative n' l' => N.eqb n n' && names_eqb l l'
-  | EmptyModel _, EmptyModel _ => true
+  | EmptyModel, EmptyModel => true
   | UnusedParameter n, UnusedParameter n' => N.eqb n n'
-  | IncorrectParameterCount _ a e, IncorrectParameterCount _ a' e' => (a =? a') && (e =? e')
+  | IncorrectParameterCount a e, IncorrectParameterCount a' e' => (a =? a') && (e =? e')
   | CommaInParameterNameNotAllowed n, CommaInParameterNameNotAllowed n' => N.eqb n n'
-  | MissingX _, MissingX _ => true
-  | MissingInitialParameters _, MissingInitialParameters _ => true
-  | IllegalCallToPartialDeriv _, IllegalCallToPartialDeriv _ => true
+  | MissingX, MissingX => true
+  | MissingInitialParameters, MissingInitialParameters => true
+  | IllegalCallToPartialDeriv, IllegalCallToPartialDeriv => true
   | _, _ => false
   end.
 
@@ -68,10 +68,6 @@ Definition mret_eqb (a b : mret Sc) : bool :=
   | TMat RPanic, TMat RPanic => true
   | _, _ => false
   end.
-
-(* the specified dispatch: an arity-n closure receives slice elements 0..n-1 in order.  Props/C16.v
-   proves that the table read from the source on every run (Gen/DispatchTable.v) is this one. *)
-Definition canon_table : list (nat * list nat) := map (fun n => (n, seq 0 n)) (seq 1 10).
 
 Definition mb_calls (m : smodel name Fn Fn0 X Sc) (cs : list (mcall Sc)) : list (mret Sc) :=
   mrun fn_arity (@length Z) 0%Z call call0 canon_table m cs.
